@@ -485,6 +485,40 @@ def ema_formulas(tree):
     return rows
 
 
+def build_target_rule(tree):
+    """_build_target_for_groupby: (condition, initial value) per branch, in source order"""
+    fns = [n for n in tree.body if isinstance(n, ast.FunctionDef) and n.name == "_build_target_for_groupby"]
+    if len(fns) != 1:
+        raise Unsupported("_build_target_for_groupby not found exactly once")
+    rows = []
+    for n in fns[0].body:
+        if isinstance(n, ast.If):
+            node = n
+            while True:
+                vals = [ast.unparse(x.value) for x in ast.walk(node) if False]
+                init = [ast.unparse(x.value) for x in node.body if isinstance(x, ast.Assign) and isinstance(x.targets[0], ast.Name) and x.targets[0].id in ("initial_value", "target")]
+                rows.append((ast.unparse(node.test), "; ".join(init)))
+                if len(node.orelse) == 1 and isinstance(node.orelse[0], ast.If):
+                    node = node.orelse[0]
+                else:
+                    init = [ast.unparse(x.value) for x in node.orelse if isinstance(x, ast.Assign) and isinstance(x.targets[0], ast.Name) and x.targets[0].id in ("initial_value", "target")]
+                    if node.orelse:
+                        rows.append(("else", "; ".join(init)))
+                    break
+    return rows
+
+
+def rolling_dispatch(tree):
+    """_apply_rolling: operation name -> 1-D kernel"""
+    fns = [n for n in tree.body if isinstance(n, ast.FunctionDef) and n.name == "_apply_rolling"]
+    if len(fns) != 1:
+        raise Unsupported("_apply_rolling not found exactly once")
+    for n in ast.walk(fns[0]):
+        if isinstance(n, ast.Assign) and isinstance(n.targets[0], ast.Name) and n.targets[0].id == "rolling_1d_funcs" and isinstance(n.value, ast.Dict):
+            return [(k.value, ast.unparse(v)) for k, v in zip(n.value.keys, n.value.values)]
+    raise Unsupported("rolling_1d_funcs not found")
+
+
 def gen_tables(trees):
     kern = []
     counters = []
@@ -520,6 +554,11 @@ def gen_tables(trees):
     cm_names, cm_red, cm_second = core_merge_dispatch(trees["core"])
     out.append("(* core.py: func_names whose key-chunk results are merged with a fixed reducer, that reducer, and the test of the next branch *)")
     out.append("Definition gen_core_merge_sums : list string * string * string :=\n  (" + coq_str_list(cm_names) + ', "' + cm_red + '", "' + cm_second.replace('"', "'") + '").\n')
+    out.append("(* numba.py: initial value of the accumulators per kind of operation; rolling operation -> kernel *)")
+    out.append("Definition gen_build_target_rule : list (string * string) :=\n  [" + ";\n   ".join(
+        '("' + a.replace('"', "'") + '", "' + b.replace('"', "'") + '")' for a, b in build_target_rule(trees["numba"])) + "].\n")
+    out.append("Definition gen_rolling_dispatch : list (string * string) :=\n  [" + "; ".join(
+        '("' + a + '", "' + b + '")' for a, b in rolling_dispatch(trees["numba"])) + "].\n")
     out.append("(* emas.py: how alpha, the elapsed halflives and the decay factor are computed *)")
     out.append("Definition gen_ema_formulas : list (string * string * string) :=\n  [" + ";\n   ".join(
         '("' + '", "'.join(x.replace('"', "'") for x in r) + '")' for r in ema_formulas(trees["emas"])) + "].\n")
